@@ -65,9 +65,11 @@ namespace occa {
   }
 
   memory& memory::swap(memory &m) {
-    modeMemory_t *modeMemory_ = modeMemory;
-    modeMemory   = m.modeMemory;
-    m.modeMemory = modeMemory_;
+    // Go through the reference-tracking assignments so that each wrapper
+    // ends up in the ring of the object it points to
+    memory tmp(m);
+    m = *this;
+    *this = tmp;
     return *this;
   }
 
